@@ -20,16 +20,25 @@ import props_lex
 import props_prog
 import props_expr
 import props_plan
+import props_sys
 
 REGISTRY = {}
 REGISTRY.update(props_lex.CHECKS)
 REGISTRY.update(props_prog.CHECKS)
 REGISTRY.update(props_expr.CHECKS)
 REGISTRY.update(props_plan.CHECKS)
+REGISTRY.update(props_sys.CHECKS)
 
 
 def replay_fn(ctx, path):
-    out = ctx.harness("replay", "--file", path)
+    env = {}
+    if ctx.prop == "C16":
+        if not getattr(ctx, "cli_bin", None):
+            ctx.cli_bin = ctx.build_cli()
+        env["VERIF_CLI_BIN"] = ctx.cli_bin
+    if ctx.prop == "C14":
+        env["VERIF_RACE_BIN"] = ctx.build_harness(race=True)
+    out = ctx.harness("replay", "--file", path, env=env)
     return "REPRODUCED" in out
 
 
